@@ -12,7 +12,7 @@ from .c04 import model
 from .indexfx import index_effects
 
 PROP = "C12"
-FLOORS = {"C12.R1": 20, "C12.R2": 20, "C12.R3": 6, "C12.R4": 1}
+FLOORS = {"C12.R1": 20, "C12.R2": 20, "C12.R3": 6, "C12.R4": 1, "C12.R5": 20}
 META = {
     "explanation": "Every concrete reference/expression class resolves __reduce__ to a definition returning (type(self), (fields...)) "
                    "whose i-th element is the declared field that the class's __cinit__ derives from its i-th parameter, on every "
@@ -221,7 +221,73 @@ def _default_containers(col, rule="C12.R4"):
                 how or "no __reduce__/__setstate__: default pickling")
 
 
+def _recursing_getattr(repo, c) -> bool:
+    """`__getattr__` that reads an instance attribute of its own (`self._data`): on a half-built instance -- which is what pickle and copy
+    hand to `getattr(obj, '__setstate__')` -- the attribute is missing, `__getattr__` is entered again for it, without end; unless the
+    class routes its own reconstruction (`__setstate__`, `__reduce__`) or refuses dunder / underscore names first"""
+    g = repo.lookup(c, "__getattr__")
+    if g is None or not g[0].module.name.startswith("xdeps"):
+        return False
+    for h in ("__setstate__", "__reduce__", "__reduce_ex__"):
+        r = repo.lookup(c, h)
+        if r is not None and r[0].module.name.startswith("xdeps"):
+            return False
+    fn = g[1]
+    reads = [n for n in A.walk(fn) if isinstance(n, ast.Attribute) and isinstance(n.value, ast.Name) and n.value.id == "self"
+             and isinstance(n.ctx, ast.Load) and not (n.attr.startswith("__") and n.attr.endswith("__"))]
+    if not reads:
+        return False
+    # a refusal (raise AttributeError) before the first own read is taken as guarding it
+    first = min(r.lineno for r in reads)
+    guarded = any(isinstance(n, ast.Raise) and n.lineno < first for n in A.walk(fn))
+    # class-level defaults / slots initialised by __new__ are not modelled: only __slots__-less and slotted classes whose attribute is set in __init__
+    return not guarded
+
+
+def _stored_objects(col, rule="C12.R5"):
+    """what Manager methods put into the manager's own attributes is pickled with it"""
+    repo = col.repo
+    mg = repo.cls("Manager")
+    hazard = {n for n, c in repo.classes.items() if c.module.name.startswith("xdeps") and _recursing_getattr(repo, c)}
+    col.info["classes_with_recursing_getattr"] = sorted(hazard)
+    if "DepEnv" not in hazard:
+        raise AnalysisError("positive control: DepEnv (a __getattr__ that delegates to self._data, no reconstruction hooks) is not recognised "
+                            "as unpicklable -- cannot decide")
+    seen = set()
+    n = 0
+    for name, fn in mg.methods.items():
+        if id(fn) in seen or name in mg.properties:
+            continue
+        seen.add(id(fn))
+        sx = sctx(repo, "Manager", name, public=True, keep=set(mg.methods))
+        bad = []
+        for ev in sx.events:
+            if ev.kind == "store":
+                held = [t for t in S.alts(ev.target) if any(x[:1] == ("attr",) and x[1] == S.SELF for x in S.subterms(t))]
+                vals = [ev.value] if held and ev.value is not None else []
+            elif ev.kind == "call" and ev.term[:1] == ("call",) and ev.term[1][:1] == ("attr",) and \
+                    ev.term[1][2] in ("append", "add", "update", "setdefault", "extend", "insert", "__setitem__") and \
+                    any(x[:1] == ("attr",) and x[1] == S.SELF for x in S.subterms(ev.term[1][1])):
+                vals = list(ev.term[2]) + [v for _k, v in ev.term[3]]
+            else:
+                vals = []
+            for v in vals:
+                for x in S.subterms(v):
+                    if x[:1] == ("call",) and x[1][:1] == ("glob",) and x[1][1] in hazard:
+                        bad.append((sx.loc(ev), x[1][1]))
+        n += 1
+        col.add(rule, f"Manager.{name}#keeps-no-unpicklable-object", not bad, bad[0][0] if bad else sx.loc(sx.fn),
+                "no object of a class whose __getattr__ recurses on a half-built instance is kept in the manager's attributes "
+                "(the manager would pickle but not load)", str(bad[:2]))
+    col.count("manager_methods_scanned", n)
+
+
 def check(col: Collector):
-    _reduce_vs_cinit(col)
-    _manager(col)
-    _default_containers(col)
+    with col.rule():
+        _stored_objects(col)
+    with col.rule():
+        _reduce_vs_cinit(col)
+    with col.rule():
+        _manager(col)
+    with col.rule():
+        _default_containers(col)
